@@ -144,8 +144,75 @@ def global_diff(a, b):
 
 # ------------------------------------------------------------------ documents and steps
 
-def aux_loader(fname):
-    return ('bytes-of-' + fname).encode()
+class Gate(object):
+    """parks the thread that owns it at its next I/O point (sink.write, source.read, auxiliary
+    file loader) until released, so that whole operations of other documents run while this
+    document is in the middle of one - deterministically, no timing involved"""
+
+    def __init__(self):
+        self.entered = threading.Event()
+        self.release = threading.Event()
+        self.armed = False
+        self.where = None
+
+    def hit(self, where):
+        if self.armed and not self.entered.is_set():
+            self.where = where
+            self.entered.set()
+            self.release.wait(120)
+
+
+class Sink(object):
+    """the file-like object documents are written to (a socket or pipe rather than a BytesIO)"""
+
+    def __init__(self, gate=None):
+        self.buf = io.BytesIO()
+        self.gate = gate
+
+    def write(self, data):
+        if self.gate is not None:
+            self.gate.hit('sink.write')
+        return self.buf.write(data)
+
+    def getvalue(self):
+        return self.buf.getvalue()
+
+
+class Reader(object):
+    """the file-like object documents are loaded from"""
+
+    def __init__(self, data, gate=None):
+        self.data = data
+        self.gate = gate
+
+    def read(self, *a):
+        if self.gate is not None:
+            self.gate.hit('source.read')
+        d, self.data = self.data, b''
+        return d
+
+
+def aux_loader_for(name, st=None):
+    def aux_loader(fname):
+        if st is not None and st.gate is not None:
+            st.gate.hit('aux_file_loader')
+        return ('bytes-of-%s-for-%s' % (fname, name)).encode()
+    return aux_loader
+
+
+# the caller's ignore lists: one list object per mask, handed to every document of the process
+# that is loaded with that mask (a user's IGNORE constant); it must come back unchanged
+CALLER_MASKS = {}
+
+
+def caller_mask(names):
+    import collada
+    if not names:
+        return None
+    key = tuple(names)
+    if key not in CALLER_MASKS:
+        CALLER_MASKS[key] = [getattr(collada.common, n) for n in names]
+    return CALLER_MASKS[key]
 
 
 class DocState(object):
@@ -153,6 +220,7 @@ class DocState(object):
         self.prog = prog
         self.doc = None
         self.at = 0
+        self.gate = None
 
 
 def exc_obs(e):
@@ -163,6 +231,8 @@ def doc_obs(doc):
     import collada
     errs = [[type(e).__name__, W.scrub(str(e))[:200]] for e in doc.errors]
     mask = [getattr(m, '__name__', repr(m)) for m in doc.maskedErrors]
+    mask.append('caller-lists:' + ';'.join('%s=%s' % (','.join(k), ','.join(c.__name__ for c in v))
+                                            for k, v in sorted(CALLER_MASKS.items()) if list(k) != [c.__name__ for c in v]))
     ids = [[o.id for o in lib] for lib in (doc.geometries, doc.effects, doc.materials, doc.nodes, doc.scenes,
                                            doc.cameras, doc.lights, doc.images, doc.controllers)]
     return [W.value_hash(doc), errs, mask, doc.tag('probe'), ids]
@@ -173,10 +243,11 @@ def do_load(st):
     from harness.impl import c17
     prog = st.prog
     src = prog['source']
-    mask = [getattr(collada.common, n) for n in (prog.get('ignore') or [])] or None
+    mask = caller_mask(prog.get('ignore'))
+    aux_loader = aux_loader_for(prog['name'], st)
     try:
         if src['kind'] == 'xml':
-            st.doc = collada.Collada(io.BytesIO(src['xml'].encode('utf-8')), ignore=mask, aux_file_loader=aux_loader)
+            st.doc = collada.Collada(Reader(src['xml'].encode('utf-8'), st.gate), ignore=mask, aux_file_loader=aux_loader)
         elif src['kind'] == 'file':
             st.doc = collada.Collada(os.path.join(c17.data_dir(), src['file']), ignore=mask)
         else:
@@ -232,22 +303,42 @@ def do_edit(doc, k, a):
     elif k == 'remove_geometry':
         if doc.geometries:
             doc.geometries.pop()
+    elif k == 'scale_vertices':
+        # the usual way to edit geometry: in place on the source arrays
+        for g in doc.geometries:
+            for src in g.sourceById.values():
+                d = getattr(src, 'data', None)
+                if isinstance(d, numpy.ndarray) and d.dtype.kind == 'f' and d.size:
+                    d *= 2.0
+                    d[0] += a
+                    break
     elif k == 'asset':
         doc.assetInfo.title = 'title-%d' % a
         doc.assetInfo.unitname = 'unit%d' % a
         doc.assetInfo.unitmeter = 0.5 * (a + 1)
     elif k == 'query':
+        # read-only use; what it returns is part of the observation (a cache shared between
+        # documents shows in the answers, not in the document)
+        from harness.impl.c17 import canon
+        res = []
         for g in doc.geometries:
             for p in g.primitives:
                 if hasattr(p, 'triangleset'):
-                    p.triangleset()
+                    ts = p.triangleset()
+                    res.append([canon(ts.index), canon(ts.vertex), len(ts)])
         if doc.scene is not None:
             for bg in doc.scene.objects('geometry'):
                 for bp in bg.primitives():
-                    list(bp.shapes())
+                    res.append([canon(bp.vertex), [canon(x) for x in list(bp.shapes())[:4]]])
+                    if hasattr(bp, 'triangleset'):
+                        res.append(canon(bp.triangleset().vertex))
         for im in doc.images:
-            im.data
-        [str(o) for lib in (doc.geometries, doc.effects, doc.materials, doc.nodes, doc.scenes) for o in lib]
+            try:
+                res.append(canon(im.data))
+            except Exception as e:  # noqa
+                res.append(['raised', type(e).__name__])
+        res.append([W.scrub(str(o)) for lib in (doc.geometries, doc.effects, doc.materials, doc.nodes, doc.scenes) for o in lib])
+        return res
     else:
         raise ValueError('unknown edit %r' % (k,))
 
@@ -264,10 +355,10 @@ def run_step(st):
     doc = st.doc
     try:
         if k == 'edit':
-            do_edit(doc, step[1], step[2])
-            return ['ok'] + doc_obs(doc)
+            r = do_edit(doc, step[1], step[2])
+            return ['ok'] + doc_obs(doc) + [W._h(json.dumps(r, default=str))]
         if k == 'save':
-            buf = io.BytesIO()
+            buf = Sink(st.gate)
             doc.write(buf)
             return ['bytes', _sha(buf.getvalue()), len(buf.getvalue())] + doc_obs(doc)
         if k == 'snap':
@@ -368,6 +459,58 @@ def mode_threads(payload):
     return {'rounds': rounds}
 
 
+def mode_gated(payload):
+    """progs[0] is parked at the first I/O point of its step gate_step; while it is parked inside
+    that operation every other program runs from load to end in this thread; module-level state is
+    sampled while the operation is in flight"""
+    progs = payload['progs']
+    states = [DocState(p) for p in progs]
+    A = states[0]
+    gate = Gate()
+    A.gate = gate
+    kA = payload['gate_step']
+    g0 = global_state()
+    digest = lambda g: W._h(*['%s=%s' % (k, g[k]) for k in sorted(g)])
+    resA = []
+    crashes = []
+
+    def runA():
+        try:
+            for k in range(len(A.prog['steps'])):
+                gate.armed = (k == kA)
+                o = run_step(A)
+                resA.append({'digest': obs_digest(o), 'obs': o})
+            gate.armed = False
+        except Exception as e:  # noqa
+            crashes.append([0, type(e).__name__, W.scrub(str(e))[:200]])
+    t = threading.Thread(target=runA)
+    t.start()
+    while not gate.entered.is_set() and t.is_alive():
+        gate.entered.wait(0.02)
+    parked = gate.entered.is_set()
+    gl = [[digest(g0), digest(global_state())]]
+    gdiff = []
+    during = global_state()
+    if during != g0:
+        gdiff.append({'when': 'document 0 parked in %s of step %d' % (gate.where, kA), 'changed': global_diff(g0, during)[:8]})
+    others = []
+    for i, st in enumerate(states[1:], 1):
+        rs = []
+        for _ in st.prog['steps']:
+            o = run_step(st)
+            rs.append({'digest': obs_digest(o), 'obs': o})
+            gl.append([digest(g0), digest(global_state())])
+        others.append(rs)
+    gate.release.set()
+    t.join(300)
+    gend = global_state()
+    gl.append([digest(g0), digest(gend)])
+    if gend != g0 and not gdiff:
+        gdiff.append({'when': 'end', 'changed': global_diff(g0, gend)[:8]})
+    return {'results': [resA] + others, 'parked': parked, 'where': gate.where, 'globals': gl, 'global_changes': gdiff,
+            'shared': sharing(states)[:10], 'crashes': crashes}
+
+
 def main():
     payload = json.load(sys.stdin)
     W.freeze_clock()
@@ -379,6 +522,8 @@ def main():
         res = mode_sched(payload)
     elif mode == 'threads':
         res = mode_threads(payload)
+    elif mode == 'gated':
+        res = mode_gated(payload)
     else:
         raise ValueError(mode)
     json.dump(res, sys.stdout)
